@@ -71,12 +71,33 @@ def nlines(text):
     return len(re.findall(r'\r\n|\n|\r', text)) + 1
 
 
+class ParseTimeout(BaseException):
+    pass
+
+
+PARSE_CPU_CAP_S = 4.0     # CPU seconds for one parse of a few KiB (normal: milliseconds)
+
+
+def _vt_fire(signum, frame):
+    raise ParseTimeout()
+
+
 def attempt(d, text):
-    """-> ('ok', trees) | ('lexerr', exc) | ('foreign', exc)"""
+    """-> ('ok', trees) | ('lexerr', exc) | ('foreign', exc) | ('timeout', None)"""
+    import signal
     from pysmi import error
     p = parser(d)
+    old = signal.signal(signal.SIGVTALRM, _vt_fire)
+    signal.setitimer(signal.ITIMER_VIRTUAL, PARSE_CPU_CAP_S)
     try:
-        return 'ok', p.parse(text)
+        try:
+            return 'ok', p.parse(text)
+        finally:
+            signal.setitimer(signal.ITIMER_VIRTUAL, 0)
+            signal.signal(signal.SIGVTALRM, old)
+    except ParseTimeout:
+        _parsers.pop(d, None)      # the interrupted parser object is not reused
+        return 'timeout', None
     except error.PySmiLexerError as e:
         return 'lexerr', e
     except (core.WorldTimeout, core.StepBudget, KeyboardInterrupt):
@@ -103,6 +124,9 @@ class Judge(object):
 
     def clause1(self, res, text, where):
         kind, val = res
+        if kind == 'timeout':
+            self.V('C11.6-terminates', 'parsing did not finish within %.0f CPU seconds %s' % (PARSE_CPU_CAP_S, where), what='timeout')
+            return False
         if kind == 'foreign':
             self.V('C11.1-package-error', 'parser raised %s (%s) %s' % (type(val).__name__, str(val)[:80], where), what='foreign', exception=type(val).__name__)
             return False
